@@ -8,6 +8,7 @@ import Mathlib.Tactic.NormNum
 import Mathlib.Tactic.Ring
 import Mathlib.Algebra.Order.Field.Basic
 import Mathlib.Algebra.Order.Ring.Rat
+import Retro.Props.C19.Period
 
 namespace Retro.Props.C19
 open Retro Retro.Rand
